@@ -221,11 +221,21 @@ def check_instance(n, k, iseed, nbox, ndir):
     # ---- reproducibility --------------------------------------------------------------------------------------
     before = [oc.f2h(ev(x)) for x in kept]
     others = []
-    for _ in range(2):
-        n2, k2 = r.choice((2, 3, 4, 5)), r.randint(1, 100)
+    for j in range(2):
+        # one other function of the same dimension, one of a random dimension
+        n2 = n if j == 0 else r.choice((2, 3, 4, 5))
+        k2 = r.choice([t for t in range(1, 101) if (n2, t) != (n, k)])
         q = oc.construct("gkls", (n2, k2))
         oc.real_eval(q, [r.uniform(-1, 1) for _ in range(n2)])
         others.append([n2, k2])
+    if oc.gkls_digest(p) != dig:
+        v("reproducible", what="tables changed after other instances were constructed", others_between=others)
+    for x, hb in zip(kept, before):
+        b = oc.f2h(ev(x))
+        if b != hb:
+            v("reproducible", what="value changed after other instances were constructed", point=oc.jl(x),
+              before=oc.h2f(hb), after=oc.h2f(b), others_between=others)
+            break
     p2 = oc.construct("gkls", (n, k))
     if oc.gkls_digest(p2) != dig:
         v("reproducible", what="second construction has different tables", others_between=others)
@@ -255,7 +265,13 @@ def run(tier, r):
     nontrivial = 0
     for n, k in inst:
         iseed = r.getrandbits(48)
-        viol, info = check_instance(n, k, iseed, nbox, ndir)
+        res, err = oc.guarded(check_instance, n, k, iseed, nbox, ndir)
+        if err is not None:
+            violations.append({"property": "C14", "n": n, "k": k, "iseed": iseed, "nbox": nbox, "ndir": ndir,
+                               "tier": tier, "clause": "exception", "observed": err})
+            stats["exceptions"] = stats.get("exceptions", 0) + 1
+            continue
+        viol, info = res
         for c in viol:
             c["tier"] = tier
         violations += viol
@@ -283,6 +299,9 @@ def run(tier, r):
 
 
 def replay(case):
-    viol, info = check_instance(case["n"], case["k"], case["iseed"], case["nbox"], case["ndir"])
+    res, err = oc.guarded(check_instance, case["n"], case["k"], case["iseed"], case["nbox"], case["ndir"])
+    if err is not None:
+        return {"reproduced": case["clause"] == "exception", "detail": err}
+    viol, info = res
     hit = [c for c in viol if c["clause"] == case["clause"]]
     return {"reproduced": bool(hit), "detail": hit[0]["observed"] if hit else {"info": info}}
